@@ -131,6 +131,7 @@ func (f *frame) applyCall(c *ssa.CallCommon, v ssa.Value, pos token.Pos, deferre
 	for i, a := range c.Args {
 		args[i] = f.get(a)
 	}
+	f.atCallObligations(key, args, pos)
 	matches := f.noteCall(key, args)
 	if len(matches) > 0 {
 		defer func() { f.noteCallResult(matches, result) }()
@@ -295,9 +296,9 @@ func (f *frame) contractCall(callee *ssa.Function, fc *FuncContract, args []SV, 
 	text := e.srcText(f.fn, pos, "call")
 	for i, rq := range fc.Requires {
 		ctx := &evalCtx{f: f, pkg: pkg, bind: bind, heap: f.curHeap, what: "requires of " + key}
-		cnd := ctx.evalBoolText(rq.Text)
-		f.oblige(fmt.Sprintf("call.pre.%d", i+1), text, cnd, rq.Text, pos)
-		f.assume(cnd)
+		cndT, cndF := ctx.evalLocal(rq.Text)
+		f.oblige(fmt.Sprintf("call.pre.%d", i+1), text, implies(and(cndF...), cndT), rq.Text, pos)
+		f.assume(and(append(cndF, cndT)...))
 	}
 	oldHeap := f.curHeap.clone()
 	if !fc.NoThrow && f.wantUnwind() && !f.inDeferred {
@@ -309,13 +310,13 @@ func (f *frame) contractCall(callee *ssa.Function, fc *FuncContract, args []SV, 
 			}
 			for _, th := range fc.Throws {
 				ctx := &evalCtx{f: f, pkg: pkg, bind: bind, heap: oldHeap, what: "throws of " + key}
-				f.assume(ctx.evalBoolText(th.Text))
+				f.assume(ctx.evalAssume(th.Text))
 			}
 			f.restorePreserved(fc, pkg, oldHeap)
 			f.restoreOnlyAt(fc, bind, oldHeap)
 			for _, uw := range fc.Unwind {
 				ctx := &evalCtx{f: f, pkg: pkg, bind: bind, heap: f.curHeap, oldHeap: oldHeap, oldBind: bind, what: "unwind_ensures of " + key}
-				f.assume(ctx.evalBoolText(uw.Text))
+				f.assume(ctx.evalAssume(uw.Text))
 			}
 		})
 	}
@@ -361,7 +362,7 @@ func (f *frame) contractCall(callee *ssa.Function, fc *FuncContract, args []SV, 
 	bindResults(nb, callee, res)
 	for _, en := range fc.Ensures {
 		ctx := &evalCtx{f: f, pkg: pkg, bind: nb, heap: f.curHeap, oldHeap: oldHeap, oldBind: bind, what: "ensures of " + key}
-		f.assume(ctx.evalBoolText(en.Text))
+		f.assume(ctx.evalAssume(en.Text))
 	}
 	e.usedContracts[key] = true
 	return res
@@ -723,10 +724,10 @@ func addrRoot(v ssa.Value) ssa.Value {
 	}
 }
 
-func (E *Engine) instrWrites(_ *FnEnc, in ssa.Instruction, w map[string]bool) {
+func (E *Engine) instrWrites(enc *FnEnc, in ssa.Instruction, w map[string]bool) {
 	switch x := in.(type) {
 	case *ssa.Store:
-		if _, ok := addrRoot(x.Addr).(*ssa.Alloc); ok {
+		if _, ok := addrRoot(x.Addr).(*ssa.Alloc); ok && enc == nil {
 			// memory allocated by this activation: not a write to anything the caller
 			// could have observed before the call (weak purity)
 			return
@@ -1057,7 +1058,7 @@ func (f *frame) assumeSlot(slot *FuncContract, clauses []*Clause, args []SV, res
 	}
 	for _, cl := range clauses {
 		ctx := &evalCtx{f: f, pkg: f.enc.E.typesPkg(slot.Pkg), bind: nb, heap: f.curHeap, oldHeap: oldHeap, oldBind: bind, what: slot.Key}
-		f.assume(ctx.evalBoolText(cl.Text))
+		f.assume(ctx.evalAssume(cl.Text))
 	}
 }
 
@@ -1178,5 +1179,29 @@ func (f *frame) restoreOnlyAt(fc *FuncContract, bind map[string]SV, oldHeap Heap
 			continue
 		}
 		e.heapSet(f.curHeap, ks[0], ks[1], fmt.Sprintf("(store %s %s (select %s %s))", old, ks[2], cur, ks[2]))
+	}
+}
+
+// atCallObligations: "at_call F : expr" – expr must hold whenever F is about to be called.
+func (f *frame) atCallObligations(key string, args []SV, pos token.Pos) {
+	e := f.enc
+	top := e.top
+	if top == nil || top.contract == nil || len(top.contract.AtCalls) == 0 || f != top {
+		return
+	}
+	for k, cs := range top.contract.AtCalls {
+		if cs.Callee != key {
+			continue
+		}
+		extra := map[string]SV{}
+		for i, a := range args {
+			if a.loc == nil && a.tuple == nil {
+				extra[fmt.Sprintf("arg%d", i)] = a
+			}
+		}
+		c := f.evalContractBool(cs.Clause, f.curHeap, extra, nil)
+		f.oblige(fmt.Sprintf("atcall.%d", k+1), e.srcText(f.fn, pos, "call"), c, cs.Clause.Text, pos)
+		o := e.obls[len(e.obls)-1]
+		o.Props = cs.Clause.Props
 	}
 }
